@@ -95,6 +95,11 @@ def main(tier_: str) -> int:
     with scratch() as d:
         ra = run_tlc('OptionsMC', 'OptionsMC.cfg', workdir=d, workers=4, timeout=300)
         tlc_must_pass(ra, 'OptionsMC (A)')
+        rl = run_tlc('OptionLayersMC', 'OptionLayersMC.cfg', workdir=d, workers=2, timeout=300)
+        tlc_must_pass(rl, 'OptionLayersMC (A)')
+        rv = run_tlc('OptionLayersMC', 'OptionLayersMC_variant.cfg', workdir=d, workers=2, timeout=300)
+        if rv.invariant_violated() != 'VariantAgrees':
+            raise MachineryFailure('OptionLayers: eliding against the global defaults is not rejected by the model')
         lines: list[dict[str, Any]] = []
         with DashApp(d / 'app', fixtures=('bbb',)) as da:
             from dashlive.server.options.repository import OptionsRepository
@@ -111,10 +116,10 @@ def main(tier_: str) -> int:
             c = da.client()
             hb = RequestHandlerBase()
 
-            def container_values(url: str, mode: str) -> dict[str, Any]:
+            def container_values(url: str, mode: str, sdir: str = 'bbb') -> dict[str, Any]:
                 with da.app.test_request_context(url):
                     import flask
-                    stream = models.Stream.get(directory='bbb')
+                    stream = models.Stream.get(directory=sdir)
                     try:
                         o = hb.calculate_options(mode, flask.request.args, stream)
                     except Exception as err:      # noqa: BLE001   the endpoint would refuse this URL
@@ -163,8 +168,26 @@ def main(tier_: str) -> int:
             if tier_ == 'quick':
                 always = [v for v in vectors[1:] if len(v) == 1 and next(iter(v)).endswith('__la_url')]
                 vectors = vectors[:1] + always + rng.sample([v for v in vectors[1:] if v not in always], min(160, len(vectors) - 1 - len(always)))
+            # a stream with option defaults of its own (spec/OptionLayers.tla): requests that leave an option out, spell out the
+            # global default, spell out the stream's default, or give a third value
+            gdef = OptionsRepository.get_default_options()
+            layered = {'depth': 60, 'mup': 6, 'leeway': 7, 'abr': False, 'base': False, 'time': 'iso'}
+            da.add_fixture('bbb', directory='sdef', title='stream with its own option defaults', only={'bbb_v7', 'bbb_a1'},
+                           defaults={opts[n].full_name: v for n, v in layered.items()})
+            third = {'depth': '45', 'mup': '9', 'leeway': '3', 'abr': '1', 'base': '1', 'time': 'xsd'}
+            lvecs: list[dict[str, str]] = [{}]
+            for n, sv in layered.items():
+                gtxt = str(opts[n].to_string(getattr(gdef, opts[n].full_name)))
+                stxt = str(opts[n].to_string(sv))
+                for raw in (gtxt, stxt, third[n]):
+                    lvecs.append({n: raw})
+                lvecs.append({n: gtxt, 'patch': '1'})
+            for _ in range(6 if tier_ == 'quick' else 60):
+                ks = rng.sample(sorted(layered), 3)
+                lvecs.append({n: rng.choice([str(opts[n].to_string(getattr(gdef, opts[n].full_name))), third[n]]) for n in ks})
+            out.coverage['layered_vectors'] = len(lvecs)
             refused = 0
-            for vec in vectors:
+            for sdir, vec in [('bbb', v) for v in vectors] + [('sdef', v) for v in lvecs]:
                 mode = 'live'
                 tmpl = 'hand_made.mpd'
                 q = '&'.join(f'{k}={quote(v, safe="")}' for k, v in vec.items())
@@ -174,7 +197,7 @@ def main(tier_: str) -> int:
                     q += '&events=ping'
                 if any(k.startswith('scte35__') for k in vec) and 'events' not in vec:
                     q += '&events=scte35'
-                url = f'/dash/{mode}/bbb/{tmpl}' + ('?' + q.lstrip('&') if q else '')
+                url = f'/dash/{mode}/{sdir}/{tmpl}' + ('?' + q.lstrip('&') if q else '')
                 r = c.get(url)
                 if r.status_code != 200:
                     refused += 1
@@ -184,7 +207,7 @@ def main(tier_: str) -> int:
                 except Exception:      # noqa: BLE001
                     refused += 1
                     continue
-                man = container_values(url, mode)
+                man = container_values(url, mode, sdir)
                 # what the manifest resolved
                 if proj['availabilityStartTime'] is not None:
                     man['start'] = canon(proj['availabilityStartTime'])
@@ -203,7 +226,7 @@ def main(tier_: str) -> int:
                     for ev in ('ping', 'scte35'):
                         if any(k.startswith(ev + '__') for k in other) and 'events' not in other:
                             dq += f'&events={ev}'
-                    c.get(f'/dash/{mode}/bbb/{tmpl}?{dq}')
+                    c.get(f'/dash/{mode}/{sdir}/{tmpl}?{dq}')
                 for adp in proj['periods'][0]['adaptation_sets']:
                     m = adp['contentType']
                     if not adp['representations']:
@@ -212,8 +235,8 @@ def main(tier_: str) -> int:
                     for which in ('initialization', 'media'):
                         t = rep['template'][which]
                         concrete = M.fill_template(t, rep['id'], rep['bandwidth'], number=5, time=0)
-                        murl = f'/dash/{mode}/bbb/' + concrete
-                        med = container_values(murl, mode)
+                        murl = concrete if concrete.startswith('/') else f'/dash/{mode}/{sdir}/' + concrete
+                        med = container_values(murl, mode, sdir)
                         man['depth'] = depth_requested if med.get('depth') == depth_requested else depth_resolved
                         qs = urlsplit(murl).query
                         url_names = [p.split('=', 1)[0] for p in qs.split('&') if p]
